@@ -496,7 +496,7 @@ static void cmd_build (int argc, char **argv)
 {
   int type = 0, flags = 0, i; unsigned serial = 0, rserial = 0;
   char *path = NULL, *iface = NULL, *member = NULL, *errname = NULL, *dest = NULL, *sender = NULL, *cinst = NULL;
-  const char *body = NULL, *fops = NULL; DBusMessage *m, *copy; int specific, fixed;
+  const char *body = NULL, *fops = NULL, *getdel = NULL; DBusMessage *m, *copy; int specific, fixed;
   if (argc < 4) { ob_puts (&out, "ERR badargs"); return; }
   specific = argv[1][0] == 's'; fixed = argv[2][0] == 'f';
   for (i = 3; i < argc; i++)
@@ -505,6 +505,7 @@ static void cmd_build (int argc, char **argv)
       if (!strncmp (a, "T=", 2)) type = atoi (a + 2);
       else if (!strncmp (a, "F=", 2)) flags = atoi (a + 2);
       else if (!strncmp (a, "FOPS=", 5)) fops = a + 5;
+      else if (!strncmp (a, "GETDEL=", 7)) getdel = a + 7;
       else if (!strncmp (a, "S=", 2)) serial = (unsigned) strtoul (a + 2, NULL, 10);
       else if (!strncmp (a, "rserial=", 8)) rserial = (unsigned) strtoul (a + 8, NULL, 10);
       else if (!strncmp (a, "path", 4)) path = field_dup (a);
@@ -555,6 +556,24 @@ static void cmd_build (int argc, char **argv)
           else if (q[1] == 'a') dbus_message_set_auto_start (m, on);
           else if (q[1] == 'i') dbus_message_set_allow_interactive_authorization (m, on);
         }
+    }
+  if (getdel)
+    {
+      /* the program reads every header field back (which fills the header's field cache), then removes one field by
+       * setting it to NULL, then goes on building: GETDEL=<field> with field in path iface member errname dest sender cinst */
+      volatile const char *sink;
+      sink = dbus_message_get_path (m); sink = dbus_message_get_interface (m); sink = dbus_message_get_member (m);
+      sink = dbus_message_get_error_name (m); sink = dbus_message_get_destination (m); sink = dbus_message_get_sender (m);
+      sink = dbus_message_get_container_instance (m); sink = dbus_message_get_signature (m); (void) sink;
+      (void) dbus_message_get_reply_serial (m);
+      if (!strcmp (getdel, "path")) { if (!dbus_message_set_path (m, NULL)) goto fail; }
+      else if (!strcmp (getdel, "iface")) { if (!dbus_message_set_interface (m, NULL)) goto fail; }
+      else if (!strcmp (getdel, "member")) { if (!dbus_message_set_member (m, NULL)) goto fail; }
+      else if (!strcmp (getdel, "errname")) { if (!dbus_message_set_error_name (m, NULL)) goto fail; }
+      else if (!strcmp (getdel, "dest")) { if (!dbus_message_set_destination (m, NULL)) goto fail; }
+      else if (!strcmp (getdel, "sender")) { if (!dbus_message_set_sender (m, NULL)) goto fail; }
+      else if (!strcmp (getdel, "cinst")) { if (!dbus_message_set_container_instance (m, NULL)) goto fail; }
+      sink = dbus_message_get_path (m); sink = dbus_message_get_member (m); (void) sink;
     }
   if (serial) dbus_message_set_serial (m, serial);
   if (body)
